@@ -1,6 +1,7 @@
 """Glue between the panic-audit engine and the rule modules (C11 find, C19/C20 xargs)."""
 from . import panic, prim
 
+BORROWS = ("borrow", "borrow_mut", "replace", "swap", "take", "replace_with")
 STR_OFFSET_OK = ("len_utf8", "find", "rfind", "len", "char_indices", "match_indices", "floor_char_boundary", "ceil_char_boundary")
 
 
@@ -28,13 +29,50 @@ def _str_index(fn, site, za):
     return ok_all, "; ".join(why)
 
 
+def _guard_region(fn, t):
+    """blocks in which the guard returned by a borrow may be alive: from the call's return up to the drop of the guard's
+    temporary on every path; the whole rest of the function when the guard is moved or not dropped on some path"""
+    from .model import Place
+    if t.target is None:
+        return set()
+    whole = fn.reach_from([t.target])
+    if not t.dest.is_local():
+        return whole
+    gl = t.dest.local
+    for b in whole:
+        for s in fn.blocks[b].stmts:
+            if s.rv is not None and s.rv.k == "use" and s.rv.ops and s.rv.ops[0].kind == "move" and s.rv.ops[0].place is not None and s.rv.ops[0].place.local == gl and s.rv.ops[0].place.is_local():
+                return whole            # the guard is moved into another local
+    region = set()
+    todo = [t.target]
+    while todo:
+        b = todo.pop()
+        if b in region:
+            continue
+        region.add(b)
+        tt = fn.blocks[b].term
+        if tt.k == "drop":
+            p = Place(tt.j["p"])
+            if p.local == gl and p.is_local():
+                continue
+        if tt.k == "return":
+            return whole                # a path returns with the guard alive
+        for s in tt.successors():
+            todo.append(s)
+    return region
+
+
 def _refcell(prog, site):
     """no re-entrancy: nothing called in this function after the borrow (while the guard may be alive) can reach a borrow
     of a RefCell of the same type"""
     fn, b, t = site.fn, site.bb, site.term
     inst = t.j.get("callee_inst") or t.callee or ""
     cell_ty = inst.split("RefCell::<", 1)[1].rsplit(">::", 1)[0] if "RefCell::<" in inst else inst
-    after = fn.reach_from([t.target]) if t.target is not None else set()
+    if t.j.get("callee_name") not in ("borrow", "borrow_mut"):
+        # a momentary borrow (replace/swap/take): it conflicts only with a guard that is alive when it runs, and every
+        # guard-holding site is checked against reaching any borrow-like call of the same cell type (below, BORROWS)
+        return True, "momentary borrow of RefCell<%s>: no guard outlives the call; conflicts are reported at the guard-holding borrow()/borrow_mut() site" % cell_ty[:40]
+    after = _guard_region(fn, t)
     roots = set()
     for bb in after:
         tt = fn.blocks[bb].term
@@ -46,16 +84,40 @@ def _refcell(prog, site):
     for p in reach:
         f2 = prog.fns[p]
         for bb, tt in f2.calls():
-            if tt.j.get("callee_name") in ("borrow", "borrow_mut") and (tt.callee or "").startswith("std::cell::RefCell") and cell_ty in (tt.j.get("callee_inst") or ""):
+            if tt.j.get("callee_name") in BORROWS and (tt.callee or "").startswith("std::cell::RefCell") and cell_ty in (tt.j.get("callee_inst") or ""):
                 bad.append(p)
     # a second borrow in the same function while the first guard lives
     for bb in after:
         tt = fn.blocks[bb].term
-        if tt is not t and tt.k == "call" and tt.j.get("callee_name") in ("borrow", "borrow_mut") and (tt.callee or "").startswith("std::cell::RefCell") and cell_ty in (tt.j.get("callee_inst") or "") and bb != b:
+        if tt is not t and tt.k == "call" and tt.j.get("callee_name") in BORROWS and (tt.callee or "").startswith("std::cell::RefCell") and cell_ty in (tt.j.get("callee_inst") or "") and bb != b:
             bad.append(fn.path)
     if bad:
         return False, "RefCell<%s> may be borrowed again while this guard is alive: via %s" % (cell_ty[:40], sorted(set(bad))[:3])
     return True, "single-threaded, and no function called while the guard may be alive (%d reachable) borrows a RefCell<%s>" % (len(reach), cell_ty[:40])
+
+
+def _oncecell(prog, site):
+    """OnceCell::get_or_init panics when the initialiser re-enters the same cell: nothing reachable from the closures
+    built in this function may call this function again or initialise a OnceCell"""
+    fn = site.fn
+    cls = prog.closures_of(fn)
+    if not cls:
+        return False, "the initialiser is not a closure of this function"
+    reach = prog.reachable_fns(sorted(c.path for c in cls))
+    bad = []
+    for p in reach:
+        if p == fn.path:
+            bad.append(p)
+            continue
+        f2 = prog.fns.get(p)
+        if f2 is None:
+            continue
+        for bb, tt in f2.calls():
+            if tt.j.get("callee_name") in ("get_or_init", "get_or_try_init") and "OnceCell" in (tt.callee or ""):
+                bad.append(p)
+    if bad:
+        return False, "the initialiser can re-enter a OnceCell via %s" % sorted(set(bad))[:3]
+    return True, "the initialiser (%d reachable functions) neither calls %s again nor initialises another OnceCell" % (len(reach), prim.short(fn.path))
 
 
 def run(ctx, rule, roots, label, exclude_prefix=()):
@@ -105,6 +167,9 @@ def run(ctx, rule, roots, label, exclude_prefix=()):
             status = "T1" if ok else None
         elif s.kind == "refcell":
             ok, why = _refcell(prog, s)
+            status = "T2d" if ok else None
+        elif s.kind == "extapi" and s.term.j.get("callee_name") == "get_or_init":
+            ok, why = _oncecell(prog, s)
             status = "T2d" if ok else None
         else:
             r = panic.t2(s)
